@@ -275,8 +275,40 @@ func ruleD3(c *Ctx) {
 		c.ok(key, c.P.Pos(hb.Pos()), "does not reach hashString / String.Hash")
 	}
 	// callers of Hash methods
-	allowedTop := func(fn *ssa.Function) string {
+	var allowedTop func(fn *ssa.Function) string
+	depthD3 := 0
+	allowedTop = func(fn *ssa.Function) string {
 		top := outermost(fn)
+		// a private helper (e.g. hashKey) all of whose callers are allowed
+		if depthD3 < 3 && top.Object() != nil && !top.Object().Exported() && top.Name() != "Hash" {
+			isHT := top.Signature.Recv() != nil && qualType(top.Signature.Recv().Type()) == "starlark.hashtable"
+			known := false
+			if isHT {
+				switch top.Name() {
+				case "insert", "lookup", "delete", "count":
+					known = true
+				}
+			}
+			if !known {
+				cs := callersOf(c.P, top)
+				if len(cs) > 0 {
+					depthD3++
+					all := true
+					for _, g := range cs {
+						if outermost(g) == top {
+							continue
+						}
+						if allowedTop(g) == "" {
+							all = false
+						}
+					}
+					depthD3--
+					if all {
+						return "private helper called only for bucket selection / by Hash methods"
+					}
+				}
+			}
+		}
 		if top.Name() == "Hash" && top.Signature.Recv() != nil {
 			return "another Hash method"
 		}
